@@ -365,6 +365,27 @@ Section TypeSwitch.
   End WithPerm.
 End TypeSwitch.
 
+(* ---------- the three repaired loops: collect the keys, sort them, then work in sorted order ---------- *)
+Section SortedLoops.
+  Context {V E : Type}.
+  Lemma sorted_loop_perm {R} (work : list (str * V) -> R) (m m' : list (str * V)) :
+    Permutation m m' -> NoDup (map fst m) -> work (sort_by_path m) = work (sort_by_path m').
+  Proof. intros Hp Hn. rewrite (sort_perm_invariant m m'); auto. Qed.
+  (* initGopPkg: the loads (each may log errors) run over the sorted names *)
+  Lemma log_loop_sorted_perm (body : str * V -> list E) m m' :
+    Permutation m m' -> NoDup (map fst m) ->
+    log_loop body (sort_by_path m) = log_loop body (sort_by_path m').
+  Proof. apply sorted_loop_perm. Qed.
+  (* gmxCheckProjs: first writer wins over the sorted extensions *)
+  Lemma first_wins_sorted_perm (m m' : list (str * V)) :
+    Permutation m m' -> NoDup (map fst m) -> first_wins (sort_by_path m) = first_wins (sort_by_path m').
+  Proof. apply sorted_loop_perm. Qed.
+  (* x/build loadPackage: the first sorted name *)
+  Lemma pick_any_sorted_perm (m m' : list (str * V)) :
+    Permutation m m' -> NoDup (map fst m) -> pick_any (sort_by_path m) = pick_any (sort_by_path m').
+  Proof. apply sorted_loop_perm. Qed.
+End SortedLoops.
+
 (* ---------- type switch: the duplicate detection is complete for an equivalence `ident` ---------- *)
 Section TypeSwitchComplete.
   Context {T P : Type} (ident : T -> T -> bool).
